@@ -47,7 +47,8 @@ func (c12) NumCases(tier string, _ int64) int {
 }
 func (c12) Exhaustive(string) bool { return false }
 func (c12) Floors(string) []runner.Floor {
-	return []runner.Floor{{Stat: "presence_comparisons", Min: 500}, {Stat: "presenceless_responses_checked", Min: 2000}, {Stat: "snapshot_pulls", Min: 200}}
+	return []runner.Floor{{Stat: "presence_comparisons", Min: 500}, {Stat: "presenceless_responses_checked", Min: 2000}, {Stat: "snapshot_pulls", Min: 200},
+		{Stat: "sdk_calls", Min: 5000}, {Stat: "sdk_presence_comparisons", Min: 300}, {Stat: "sdk_presenceless_views_checked", Min: 100}}
 }
 
 type c12Worker struct{ *simWorker }
@@ -265,12 +266,29 @@ func (w *c12Worker) run(res *runner.CaseResult, idx int, seed int64, replay *sim
 
 func (w *c12Worker) Run(idx int) runner.CaseResult {
 	res := runner.CaseResult{Case: fmt.Sprintf("c12-%d", idx)}
+	if idx%8 == 5 {
+		w.runSDK(&res, idx, nil)
+		return res
+	}
 	w.run(&res, idx, w.seed, nil, idx%3 == 0)
 	return res
 }
 
 func (w *c12Worker) Replay(data json.RawMessage) runner.CaseResult {
 	res := runner.CaseResult{Case: "replay"}
+	var fam struct {
+		Family string `json:"family"`
+	}
+	if json.Unmarshal(data, &fam) == nil && fam.Family == "sdk" {
+		var sr sdkReplay
+		if err := json.Unmarshal(data, &sr); err != nil {
+			res.Inconclusive = err.Error()
+			return res
+		}
+		w.seed = sr.Seed
+		w.runSDK(&res, sr.Idx, &sr)
+		return res
+	}
 	var rp struct {
 		H      sim.History `json:"h"`
 		NoPres bool        `json:"no_pres"`
